@@ -251,6 +251,53 @@ def make_async(pid, macro, asite, step, seed):
                    unwind=12, weight=4, solo=(step == 1))
 
 
+TRIVIAL = ["or-cross", "or-same", "fold-init", "chain-arr", "or-step1", "try-or-cross", "zip-arr-step1"]
+
+
+def make_trivial(pid, shape):
+    """block operands that consist of nothing but a variable (`{ name }`): they are evaluated - i.e. the variable is READ - once, before any
+    branch expression of their step, like every other block.  An earlier expression of the step (another branch, or the same branch) assigns
+    a different value to the variable afterwards; the operand must still be the value the variable held when the step began"""
+    msg = lambda t: "\"C11[%s]: %s\"" % (pid, t)
+    L = ["let f0 = b(); let f1 = b(); let f2 = b(); let k0 = u(); let k1 = u(); let k2 = u(); let k3 = u(); let p0 = u();"]
+    macro = "try_join" if shape.startswith("try") else "join"
+    if shape in ("or-cross", "try-or-cross", "or-step1"):
+        L.append("let mut opnd = mo(f1, k1); let orig = opnd;")
+        t = "~" if shape == "or-step1" else ""
+        text = "%s! { Some(p0) %s|> |v: u8| { ev(1); opnd = mo(f2, k2); v }, mo(f0, k0) %s<| { opnd } }" % (macro, t, t)
+        if shape == "try-or-cross":
+            L.append("nd::assume(f0 || f1);")   # (the try macro would stop at a None)
+            exp = "Some((p0, mo(f0, k0).or(orig).unwrap()))"
+        else:
+            exp = "(Some(p0), mo(f0, k0).or(orig))"
+        after = "opnd == mo(f2, k2)"
+    elif shape == "or-same":
+        L.append("let mut opnd = mo(f1, k1); let orig = opnd;")
+        text = "join! { Some(p0) |> |v: u8| { ev(1); opnd = mo(f2, k2); v } ?> |v: &u8| *v > k3 <| { opnd }, k0 }"
+        exp = "(Some(p0).filter(|v| *v > k3).or(orig), k0)"
+        after = "opnd == mo(f2, k2)"
+    elif shape == "fold-init":
+        L.append("let mut init = k1; let orig = init;")
+        text = "join! { Some(p0) |> |v: u8| { ev(1); init = k2; v }, [k0, k3].into_iter() ^@ { init }, |a: u8, v: u8| a.wrapping_mul(3) ^ v }"
+        exp = "(Some(p0), (orig.wrapping_mul(3) ^ k0).wrapping_mul(3) ^ k3)"
+        after = "init == k2"
+    elif shape == "chain-arr":
+        L.append("let mut arr = [k1, k2]; let orig = arr;")
+        text = "join! { Some(p0) |> |v: u8| { ev(1); arr = [k3, k3]; v }, [k0].into_iter() >@> { arr } ^@ 1u8, |a: u8, v: u8| a.wrapping_mul(3) ^ v }"
+        exp = "(Some(p0), ((3u8 ^ k0).wrapping_mul(3) ^ orig[0]).wrapping_mul(3) ^ orig[1])"
+        after = "arr == [k3, k3]"
+    else:
+        L.append("let mut arr = [k1, k2]; let orig = arr;")
+        text = "join! { Some(p0) ~|> |v: u8| { ev(1); arr = [k3, k3]; v }, [k0, p0].into_iter() ~>^> { arr } ^@ 1u8, |a: u8, v: (u8, u8)| a.wrapping_mul(3) ^ v.0 ^ v.1.wrapping_mul(5) }"
+        exp = "(Some(p0), ((3u8 ^ k0 ^ orig[0].wrapping_mul(5)).wrapping_mul(3)) ^ p0 ^ orig[1].wrapping_mul(5))"
+        after = "arr == [k3, k3]"
+    L.append("let r = %s;" % text)
+    L.append("vassert!(r == %s, %s);" % (exp, msg("a block operand `{ name }` is evaluated before any branch expression of its step: the operand is the value `name` held when the step began")))
+    L.append("vassert!(cnt(1) == 1 && %s, %s);" % (after, msg("the assigning callback ran (the variable now holds the new value)")))
+    L.append("vcover!(true, \"end reached\");")
+    return Program(pid, text, "    " + "\n    ".join(L), desc=dict(macro=macro, shape=shape, operand="a block that is just a variable"), group="trivial-block/" + shape, role=dict(kind=macro), unwind=12, weight=1)
+
+
 def programs(tier, seed):
     ps = []
     i = 0
@@ -275,6 +322,11 @@ def programs(tier, seed):
                 if macro == "try_join_async" and asite[0] == "??" and False:
                     continue
                 ps.append(make_async("p%04d" % i, macro, asite, step, seed))
+    for k, shape in enumerate(TRIVIAL):
+        i += 1
+        if tier == "quick" and (k + seed) % 2 and shape not in ("or-cross", "or-step1"):
+            continue
+        ps.append(make_trivial("p%04d" % i, shape))
     return ps
 
 
